@@ -3,6 +3,8 @@ import random
 import warnings
 from fractions import Fraction
 
+from props._util import same_num, same_dict
+
 ID = 'C02'
 LEVEL = 'proof'
 CONTRACTS = ['contracts.explainer']
@@ -143,9 +145,8 @@ def BOUNDED(tier, seed):
                         for t in range(len(stream)):
                             evals += 1
                             distinct.add((dynamic, str(alpha), n_inner, str(names), strategy, t))
-                            gi = {k: Fraction(v) for k, v in got[t][0].items()}
-                            gv = {k: Fraction(v) for k, v in got[t][1].items()}
-                            if gi != ref[t][0] or gv != ref[t][1] or (t >= 1 and gi[names[-1]] != 0):
+                            gi, gv = got[t]
+                            if not same_dict(gi, ref[t][0]) or not same_dict(gv, ref[t][1]) or (t >= 1 and not same_num(gi[names[-1]], 0)):
                                 fails.append({'key': 'pfi_reference', 'summary': f'PFI after {t + 1} observations: importance {got[t][0]} / variance '
                                               f'{got[t][1]} differ from the closed-form reference {ref[t]} (dynamic={dynamic}, alpha={alpha}, '
                                               f'n={n_inner}, names={names}, {strategy})'})
